@@ -385,6 +385,78 @@ def composed_table(ctx, g):
     return n
 
 
+def substituted_forward(ctx, g):
+    """the forward solve runs while the operator's parameters are temporarily substituted (LinearOperator.uselinopparams - what the
+    implicit backward passes of the other functionals do); differentiation happens after the block has ended: the gradient belongs to
+    the substituted tensors and is the derivative of the solution computed with THEM"""
+    n = 0
+    nn_, nc = 4, 2
+    eye = torch.eye(nn_, dtype=DT)
+    for opkind in ("mvrmv", "mvonly", "nonlinear"):
+        for fm, bm in (("cg", None), ("bicgstab", "bicgstab"), ("custom_exactsolve", None), ("custom_exactsolve", "cg")):
+            for mode in ("none", "E"):
+                n += 1
+                ctx.case(key=("substituted-forward", opkind, fm, bm, mode))
+                why = None
+                try:
+                    S0 = make_matrix("spd", nn_, (), DT, g)[0]
+                    B = torch.randn(nn_, nc, generator=g, dtype=DT).requires_grad_()
+                    E = (-(torch.rand(nc, generator=g, dtype=DT) + 0.5)).requires_grad_() if mode == "E" else None
+                    with warnings.catch_warnings():
+                        warnings.simplefilter("ignore")
+                        if opkind == "nonlinear":
+                            p_orig = (torch.randn(nn_, generator=g, dtype=DT) * 0.3).requires_grad_()
+                            p_sub = (torch.randn(nn_, generator=g, dtype=DT) * 0.3).requires_grad_()
+                            A = NonlinOp(S0, p_orig, torch.exp)
+                            dense = lambda p_: S0 + torch.diag(torch.exp(p_))
+                        else:
+                            p_orig = S0.clone().requires_grad_()
+                            p_sub = (S0 + 0.3 * eye + 0.1 * sym2(torch.randn(nn_, nn_, generator=g, dtype=DT))).requires_grad_()
+                            A = (MvRmv if opkind == "mvrmv" else MvOnly)(p_orig, True)
+                            dense = lambda p_: sym2(p_)
+                        kw = fwd_opts(fm)
+                        kw["bck_options"] = dict(fwd_opts(bm), method=bm) if bm is not None else (fwd_opts(fm) if fm != "custom_exactsolve" else {})
+                        with A.uselinopparams(p_sub if opkind == "nonlinear" else sym2(p_sub)):
+                            X = xitorch.linalg.solve(A, B, E, method=fm, **kw)
+                        leaves = [p_sub, B] + ([E] if E is not None else [])
+                        W = torch.randn(X.shape, generator=g, dtype=DT)
+                        g1 = torch.autograd.grad((X * W).sum(), leaves + [p_orig], create_graph=True, allow_unused=True)
+                        Xr = dense_solution(dense(p_sub), B, E, None)
+                        r1 = torch.autograd.grad((Xr * W).sum(), leaves, create_graph=True, allow_unused=True)
+                    if not torch.allclose(X, Xr, atol=1e-8, rtol=1e-8):
+                        why = "solution differs from the dense solve with the substituted parameters by %.2e" % float((X - Xr).abs().max())
+                    elif g1[-1] is not None and float(g1[-1].abs().max()) > 0:
+                        why = "the operator's ORIGINAL parameter, which did not enter the solve, received a non-zero gradient"
+                    else:
+                        for nm, a, b, lf in zip(["substituted parameter", "B", "E"], g1[:-1], r1, leaves):
+                            a0 = a if a is not None else torch.zeros_like(lf)
+                            b0 = b if b is not None else torch.zeros_like(lf)
+                            if nm == "substituted parameter" and a0.dim() == 2:
+                                a0, b0 = sym2(a0), sym2(b0)
+                            if not torch.allclose(a0, b0, atol=1e-6, rtol=1e-6):
+                                why = "gradient w.r.t. the %s differs from the dense reference by %.2e" % (nm, float((a0 - b0).abs().max()))
+                                break
+                    if why is None:
+                        s1 = sum((a ** 2).sum() for a in g1[:-1] if a is not None)
+                        s2 = sum((b ** 2).sum() for b in r1 if b is not None)
+                        h1 = torch.autograd.grad(s1, leaves, allow_unused=True)
+                        h2 = torch.autograd.grad(s2, leaves, allow_unused=True)
+                        for nm, a, b, lf in zip(["substituted parameter", "B", "E"], h1, h2, leaves):
+                            a0 = a if a is not None else torch.zeros_like(lf)
+                            b0 = b if b is not None else torch.zeros_like(lf)
+                            if nm == "substituted parameter" and a0.dim() == 2:
+                                a0, b0 = sym2(a0), sym2(b0)
+                            if not torch.allclose(a0, b0, atol=1e-5 * (1 + float(b0.abs().max())), rtol=1e-5):
+                                why = "second-order gradient w.r.t. the %s differs from the dense reference by %.2e" % (nm, float((a0 - b0).abs().max()))
+                                break
+                except Exception as ex_:
+                    why = "raised %s: %s" % (type(ex_).__name__, str(ex_)[:160])
+                if why:
+                    ctx.violation("solvegrad/substituted-forward/%s" % opkind, "solve(%s, backward %s) mode %s on a %s operator, forward inside uselinopparams: %s"
+                                  % (fm, bm or "default", mode, opkind, why), {"op": opkind, "fm": fm, "bm": bm, "mode": mode})
+    return n
+
+
 def run(ctx):
     thorough = ctx.tier == "thorough"
     rng = random.Random(ctx.seed)
@@ -393,6 +465,7 @@ def run(ctx):
     ne = exact_replay(ctx, insts, rng, len(insts) if thorough else 60)
     nt = table(ctx, thorough, g)
     nt += composed_table(ctx, g)
+    nt += substituted_forward(ctx, g)
     with warnings.catch_warnings():
         warnings.simplefilter("ignore")
         npb = probe_backward(ctx, g)
